@@ -49,6 +49,7 @@ class State:
         self.guards: List[z3.BoolRef] = []    # local guards of short-circuit evaluation (for safety obligations)
         self.trace: List[str] = []
         self.bidx: set = set()               # indices into pc that are branch conditions (not facts)
+        self.notes: dict = {}                # per-path notes of contract text (e.g. skolem witnesses handed from a callee contract to the caller's)
 
     def fork(self) -> 'State':
         s = State()
@@ -61,6 +62,7 @@ class State:
         s.guards = list(self.guards)
         s.trace = list(self.trace)
         s.bidx = set(self.bidx)
+        s.notes = dict(self.notes)
         return s
 
     @property
